@@ -6,8 +6,8 @@ import jobs as J
 
 TECH = "solver-based: Kani 0.68 / CBMC 6.11 bounded model checking of the real Rust code (symbolic inputs, unwinding assertions on), "
 LEVEL = {
- "C01": ("L1 (one machine step, split over its CounterZero recursion) and L2 (one trigger_events call over the transition contract) from every Inv-state: no panic / overflow / out-of-bounds, recursion bounded by the two per-machine flags (asserted measure), work bound (events+1)x(machines+1) on the ghost step counter; inductive over call histories.", "3 C01"),
- "C02": ("L1: a SendPadding is scheduled only when the padding predicate allows it; L2: the packet counts every machine step sees are the harness' independent recount including the current event. The f64 fraction kernel itself is not decided (division equivalence does not finish), see level_note.", "3 C02"),
+ "C01": ("L1 (one machine step, split over its CounterZero recursion) and L2 (one trigger_events call over the transition contract, plus a two-event batch) from every Inv-state: no panic / overflow / out-of-bounds, recursion bounded by the two per-machine flags (asserted measure), work bound (events+1)x(machines+1) on the ghost step counter; Framework::new establishes Inv; validated targets are in range; std-clock BlockingEnd (known finding F5); inductive over call histories.", "3 C01"),
+ "C02": ("L0: the real padding predicate equals the statement for all fractions, budgets and limits over every combination of small concrete packet counts; L1: a SendPadding is scheduled only when the predicate allows it; L2: the packet counts every machine step sees are the harness' independent recount including the current event.", "3 C02"),
  "C03": ("L1: a BlockOutgoing is scheduled only when the blocking predicate allows it; L2: ghost blocked-time accounting (saturating, clock may run backwards) equals the framework's at every step and after the call.", "3 C03"),
  "C04": ("L0 one-day clamp for any f64 sampler result; L1 slot well-formedness (own machine, kind/flags of a state's action, END absorbing); L2 slots reset per call, iterator yields exactly the scheduled actions with distinct ids < M, none for M = 0.", "3 C04"),
  "C05": ("differential: real transition / update_counter against a reference step written from the documentation, same random tape, from every Inv-state (equal state, limit, counters, slot, signal, draws); L2: machines stepped only with the reported event, in index order, LimitReached immediately, one signal round last. Bounded families, no sampling.", "3 C05"),
@@ -27,8 +27,8 @@ LEVEL = {
  "C20": ("convert_action / convert_event for every value, null-pointer paths, error codes.", "3 C20"),
 }
 NOTE = {
- "C02": "Assumes Inv (DESIGN 2.4). The float kernel below_limit_padding == statement predicate (two f64 divisions on each side) does not finish under CBMC (division-equivalence miter, > 15 min even for one division pair); L1 therefore abstracts the predicate by its proven-by-reading factorisation 'state_limit > 0 AND constant-per-step', and a mutation INSIDE the fraction arithmetic of below_limit_padding is outside what this check decides.",
- "C03": "As C02 for below_limit_blocking (div_duration_f64). std::time overflow of accumulated blocking (F5) is not modelled by the virtual clock (saturating add).",
+ "C02": "Assumes Inv (DESIGN 2.4). The f64 quotients are decided only for packet counts 0..=2 per operand (27 combinations, operands concrete so that the quotient folds; fractions, budgets and limits fully symbolic): a defect that shows only for larger counts (e.g. u64->f64 rounding above 2^53) is outside the claim. L1 uses the predicate through its proven form 'state_limit > 0 AND constant-per-step'. One call = one event.",
+ "C03": "As C02 for below_limit_blocking (36 combinations of accumulated / ongoing / elapsed microseconds 0..=3). The virtual clock saturates; the std::time overflow (F5) is decided separately by k_blocking_end_std (known finding).",
  "C12": "Row judgement decided with HashSet::insert stubbed to a no-op (targets assumed pairwise distinct: the duplicate-target clause is NOT decided); from_str applying the same judgement is read off the source (it ends in Machine::validate), not decided by a solver query; Poisson/Gamma/Beta/Geometric validators only in the thorough tier.",
  "C14": "NetworkBottleneck::sample is replaced by its no-limit contract (delay, None) in the TunnelSent step (the real function with its VecDeque window runs CBMC out of memory); the trace-derived limit never being exceeded is therefore assumed, not decided. parse_trace is not covered.",
 }
